@@ -33,6 +33,7 @@ fn expr_grammar(quick: bool) -> Grammar {
         while_: false,
         repeat: false,
         do_: false,
+        do_ranges: vec![],
         defs: vec!["t"],
         locals: vec![],
         vars: vec![],
